@@ -2,7 +2,7 @@ SPEC = {
     'id': 'C28',
     'harness': 'hC28',
     'coq_dir': 'C28',
-    'claimed': False,
+    'claimed': True,
     'theorems': ['C28_unique_in_window', 'C28_unexpired_fee_chainid', 'C28_window_cache_exact', 'C28_tx_index_exact',
                  'C28_all_signed_refuted', 'C28_all_signed_partial', 'C28_chain_clean_partial', 'C28_fix_all_signed', 'C28_hypotheses_satisfiable'],
     'allowed_axioms': [],
